@@ -188,6 +188,11 @@ def replay(path):
     if d.get("how"):
         from . import fillpart
         return fillpart.replay_row(d)
+    if d.get("kind") == "twins":
+        r = twins_part(d["property"], "quick", 1)
+        for l in r["lines"]:
+            print(l)
+        return 1 if r["nviol"] else 0
     if "history" in d:
         return replay_lin(d)
     if "frame" in d:
@@ -315,6 +320,48 @@ def proxy_part(prop, tier, seed):
 PARTS["C19"] = [proxy_part]
 
 
+def twins_part(prop, tier, seed):
+    """Several containers at work in one process: each one's frames obey the frame protocol of TermDesign.tla on their
+    own (cursor-up = own rows, own row count); under the race detector for C10."""
+    import subprocess
+    t0 = time.time()
+    wd = core.workdir(prop + "w")
+    try:
+        race = prop == "C10"
+        binary = core.build_harness(wd, race=race)
+        runs = (6 if tier == "quick" else 60) if not race else (3 if tier == "quick" else 20)
+        lines, nviol, frames = [], 0, 0
+        os.makedirs(os.path.join(core.ROOT, "replays"), exist_ok=True)
+        for i in range(runs):
+            outp = os.path.join(wd, "twins-%d.out" % i)
+            env = dict(os.environ, VH_OUT=outp, VH_N="400" if not race else "150")
+            if race:
+                env["GORACE"] = "halt_on_error=1"
+            p = subprocess.run([binary, "-test.run", "^TestTwins$", "-test.timeout", "120s"], env=env, capture_output=True, text=True, timeout=300)
+            out = p.stdout + p.stderr
+            rows = [json.loads(l) for l in open(outp)] if os.path.exists(outp) else []
+            bad = [r for r in rows if "msg" in r]
+            if "DATA RACE" in out and "github.com/vbauerster/mpb/v8" in out:
+                bad.append({"row": -1, "msg": "data race between containers: " + " | ".join(l.strip() for l in out.splitlines() if "vbauerster/mpb/v8" in l and "(" in l)[:300]})
+            elif not rows or "done" not in rows[-1]:
+                raise core.Infra("TestTwins did not finish: " + out[-1500:])
+            frames += rows[-1]["done"] if rows and "done" in rows[-1] else 0
+            for b in bad[:3]:
+                path = os.path.join(core.ROOT, "replays", "%s-twins-%d.json" % (prop, i))
+                json.dump({"property": prop, "kind": "twins", "rule": "containers-interfere", "msg": b["msg"], "race": race}, open(path, "w"))
+                lines.append("VIOLATION property=%s replay=%s rule=containers-interfere %s" % (prop, path, b["msg"][:200]))
+            nviol += len(bad)
+        cov = {"states": 0, "transitions": 0, "traces_validated_against_impl": runs, "evaluations": frames, "distinct_nontrivial": runs,
+               "samples": [{"containers": 10, "frames": frames}], "exhaustive": False,
+               "rule": "%d runs of 10 containers with 1..10 one-row bars each, manual refresh hammered concurrently%s; every frame of every container "
+                       "begins with cursor-up of its own row count and has its own row count" % (runs, " under the race detector" if race else ""),
+               "checker_cmd": "harness%s.test TestTwins" % (".race" if race else "")}
+        lines.append("%s %s twins: %d runs, %d frames, %d violations, %.1fs" % (prop, tier, runs, frames, nviol, time.time() - t0))
+        return {"cov": cov, "lines": lines, "nviol": nviol, "assume": ["ten containers on 16 cores overlap their render cycles often enough within the frames drawn"]}
+    finally:
+        shutil.rmtree(wd, ignore_errors=True)
+
+
 def api_part(prop, tier, seed):
     from . import fillpart
     return fillpart.table(prop, tier, seed, "Api.tla", "Api.cfg", "Api.cfg", "TestApiCases", "API",
@@ -433,7 +480,7 @@ CORE_CFGS = {   # property -> (quick configs, thorough configs) of MPBCore.tla
     "C06": (["prio", "priorm"], ["prio", "priolazy", "priolazyimm", "queue", "pop", "priorm", "priopop"]),
     "C15": (["fault1", "faultsync"], ["fault1", "fault2", "faultsync"]),
     "C12": (["drop", "mixed2"], ["sync2", "mixed2", "drop", "three", "pop3"]),
-    "C13": (["write"], ["write", "two"]),
+    "C13": (["write", "write2"], ["write", "write2", "two"]),
     "C14": (["none", "manual", "listen"], ["shut", "none", "manual", "manualsync", "listen", "listenshut"]),
     "C16": (["q0", "rm", "faultsync"], ["q0", "rm", "drop", "queue", "pop", "write", "shut", "sync2", "fault1", "faultsync"]),
     "C17": (["queue"], ["queue"]),
@@ -545,6 +592,8 @@ for _p in CORE_CFGS:
     PARTS[_p] = PARTS.get(_p, []) + [core_part]
 PARTS["C04"] = [term_part, sched_part]
 PARTS["C02"] = PARTS["C02"] + [api_part]
+PARTS["C04"] = PARTS["C04"] + [twins_part]
+PARTS["C10"] = PARTS["C10"] + [twins_part]
 PARTS["C18"] = [sched_part, term_part]
 PARTS["C07"] = [fill_part]
 PARTS["C08"] = [fill_part]
